@@ -667,8 +667,8 @@ func (en *ExtensionNode) Decode(buf []byte) error {
 func (en *ExtensionNode) CloneNode() Node {
 	clone := &ExtensionNode{}
 	clone.OriginTrackerNode = en.OriginTrackerNode.Clone()
-	clone.Path = en.Path       // path will never be updated inplace and so ok
-	clone.NodeKey = en.NodeKey // nodekey will never be updated inplace and so ok
+	clone.Path = concat(en.Path) // the path may be a slice of the caller's Insert path: take a copy, as LeafNode does
+	clone.NodeKey = en.NodeKey   // nodekey will never be updated inplace and so ok
 	return clone
 }
 
